@@ -74,7 +74,7 @@ def standin(req):
 
 
 def replay(req):
-    r = standin({"tier": "quick"})
+    r = standin({"tier": "thorough"})
     return {"ok": True, "confirmed": bool(r["failures"]), "detail": r["failures"][:1]}
 
 
